@@ -627,7 +627,7 @@ func init() {
 			for _, form := range []struct {
 				text string
 				n    int
-			}{{x, 1}, {x + ";", 1}, {x + " ; " + x, 2}, {x + ";\n" + x + ";", 2}} {
+			}{{x, 1}, {x + "\n;", 1}, {x + "\n ; " + x, 2}, {x + "\n;\n" + x + "\n;", 2}} {
 				rl := callEntry(le, "", form.text)
 				if rl.panicked || rl.err != nil {
 					return "list-rejected:" + ln, fmt.Sprint(rl.err, rl.panicVal, " text=", form.text), false
@@ -812,11 +812,24 @@ func init() {
 			}
 			// SQL() of the Bad node re-lexes to the same kinds and spellings
 			sql := b.SQL()
-			re, ok := lexRecovery(sql)
+			// the lexer's dot-identifier mode depends on the token before a '.': re-lex in the state the Bad node started in,
+			// i.e. with the raw text of the preceding input token in front when the node starts with '.'
+			ctx := ""
+			if b.Tokens[0].Kind == "." {
+				for _, t := range all {
+					if int(t.End) <= p && t.Kind != token.TokenEOF {
+						ctx = t.Raw + " "
+					}
+				}
+			}
+			re, ok := lexRecovery(ctx + sql)
 			if !ok {
 				return "bad-sql-does-not-lex", sql, false
 			}
 			re = re[:len(re)-1]
+			if ctx != "" && len(re) > 0 {
+				re = re[1:]
+			}
 			// a split ">>" keeps Raw ">>" with kind ">"; it re-lexes as ">>": compare spellings, and kinds modulo that
 			if len(re) != len(b.Tokens) {
 				return "bad-sql-relex-count", fmt.Sprintf("%q: %d vs %d", sql, len(re), len(b.Tokens)), false
